@@ -99,3 +99,33 @@ Fixpoint subst_url (fuel : nat) (path : str) (ar : args) : str :=
 (* one call of a generated client method, as the recording client sees it *)
 Definition run_operation (o : hop) (ar : args) : result http :=
   run_plan (o_params o) ar (start (o_method o) (subst_url (length (o_path o)) (o_path o) ar)).
+
+(* ---------- credentials: what a client built by from_env adds to every request (C14) ----------
+   from_env constructs the variant of the FIRST declared strategy, reading each field from <SERVICE>_<NAME>;
+   `authenticate` then places every field where its location says (auth_set_value). *)
+Inductive cred := CPlain (env : str) | CBase64 (env : str).      (* basic: base64 (no padding) of the variable's value *)
+Inductive place := PlHeader (k : str) | PlQuery (k : str) | PlCookie (k : str) | PlBearer | PlBasic | PlToken.
+
+Definition place_of (l : authloc) : place :=
+  match l with
+  | AHeader k => PlHeader k | AQuery k => PlQuery k | ACookie k => PlCookie k
+  | ABearer => PlBearer | ABasic => PlBasic | AToken => PlToken
+  end.
+
+Inductive auth_plan :=
+| APNone                                    (* no security declared: nothing is added *)
+| APAnonymous                               (* the first requirement is the empty one *)
+| APFields (l : list (place * cred))
+| APOAuth2 (access_env refresh_env : str).  (* bearer middleware built from <SERVICE>_ACCESS_TOKEN / _REFRESH_TOKEN *)
+
+Definition auth_plan_of (h : hirspec) (cfg : config) : auth_plan :=
+  match h_security h with
+  | [] => APNone
+  | AuthNone :: _ => APAnonymous
+  | AuthToken _ fields :: _ =>
+      APFields (map (fun fl =>
+        let var := qualified_env_var (c_name cfg) (fst fl) in
+        (place_of (snd fl), match snd fl with ABasic => CBase64 var | _ => CPlain var end)) fields)
+  | AuthOAuth2 _ _ _ _ :: _ =>
+      APOAuth2 (qualified_env_var (c_name cfg) (lit "access_token")) (qualified_env_var (c_name cfg) (lit "refresh_token"))
+  end.
